@@ -102,6 +102,9 @@ PROPS = {
         "level": "exploration",
         "units": [
             U("c11", "TestRequests", T(5, 16, 400, shrinktime="60s"), T(40, 16, 3000, shrinktime="240s"), needs=["nodeexec"]),
+            U("c11", "TestFuzzCorpus", T(None, 1, 120), T(None, 1, 120)),
+            U("c11", "FuzzAPIHandlers", None, T(None, 1, 600, fuzz="180s", cwd=H + "c11", cores=16, fuzzprocs=8), fuzzbuild=True),
+            U("c11", "TestReplayFuzz"),
         ],
     },
     "C17": {
